@@ -16,11 +16,17 @@
         probe:   (r c)          write: (r c x)
         result:  (2)                             partition panicked
                  (1 ((n0 rows) (n1 cols)))       a tensor wrapper was refused (InvalidShapeError)
-                 (0 ((rows cols) (p ...) (p ...) (o ...) (x ...) (L Lref)))
-                    size; per probe p = () absent | (x) present | (0 0) panic; the view's
-                    row_major_iter as p's; per write o = 0 written / 2 panicked (MatrixView::set);
-                    the root's data afterwards; data_layout() of the view itself and as answered
-                    through `&S` / `&mut S`: 0 RowMajor 1 ColumnMajor 2 Other 3 the call panicked
+                 (0 ((rows cols) (p ...) (p ...) (o ...) (x ...) (L Lref) ((p ...) (p ...))))
+                    size; per probe p = () absent | (x) present | (0 0) panic through the SHARED
+                    checked getter (try_get_reference); the view's row_major_iter as p's — the
+                    iterator reads through get_reference_unchecked, so the model computes it with
+                    Model/MatrixAccess.v `get_unchecked`; per write o = 0 written / 2 panicked
+                    (MatrixView::set = try_get_reference_mut: `write_mut`); the root's data
+                    afterwards; data_layout() of the view itself and as answered through `&S` /
+                    `&mut S`: 0 RowMajor 1 ColumnMajor 2 Other 3 the call panicked; last: every
+                    probe through the MUTABLE checked getter (try_get_reference_mut, `try_get_mut`)
+                    and every cell of the view in row-major order through
+                    get_reference_unchecked_mut (`get_unchecked_mut`)
      (12 2 rows cols (data) (rp) (cp))                   matrix.partition(&rp, &cp)
      (12 3 rows cols (data) r c)                         matrix.partition_quadrants(r, c)
         result:  (2)  or  (0 ((part ...) (x ...)))   part = ((rows cols) (p ...)) listing all its
@@ -36,9 +42,22 @@
                  TensorStack, TensorChain, Box / &mut); the root is the tensor view's leaf store
                  (the element of leaf id at offset k is id * 1000 + k, leaves in term order)
         result:  (1 error) | (2) first failing tensor constructor (payloads of Model/Views.v), then
-                 as for (12 1 ...) *)
+                 as for (12 1 ...)
+     (12 7 rows cols (data) ((rr cc) ...) (mop ...) (probe ...))   SOURCE-MUTATION HISTORY: one to three
+                 nested MatrixReverse views (innermost first) over the matrix (borrowed `&mut` and
+                 owned), wrapped in a MatrixView; the matrix is then changed THROUGH the view —
+                 `view.source_ref_mut().source_ref_mut()...`, or taking the view apart with
+                 `source()` and re-wrapping the same MatrixReverse object — by the C11 operations
+                 mop = (0 r v) insert_row | (2 c v) insert_column | (4 r) remove_row | (5 c) remove_column
+                 | (9) transpose_mut | (10 r c v) set, and the SAME view object is observed before and
+                 after every operation.  The model re-evaluates the view term over the matrix as it
+                 is NOW (adaptors keep their flags, nothing else).
+        result:  (obs (flag obs) ...)   flag 0 done / 2 panicked (matrix unchanged);
+                 obs = ((rows cols) (p ...) (p ...) ((p ...) (p ...))): size, probes through
+                 try_get_reference, row_major_iter (get_reference_unchecked), probes through
+                 try_get_reference_mut, every cell through get_reference_unchecked_mut *)
 From Coq Require Import List ZArith NArith Bool.
-From EasyML Require Import Base.Sx Model.Shape Model.Matrix Model.MatrixViews Model.MatrixHistory Run.RunC11.
+From EasyML Require Import Base.Sx Model.Shape Model.Matrix Model.MatrixViews Model.MatrixAccess Model.MatrixHistory Run.RunC11.
 From EasyML Require Model.Views Run.RunC02.
 Import ListNotations.
 Open Scope N_scope.
@@ -128,11 +147,19 @@ Definition sprobe (o : outcome (option Z)) : sx :=
 Definition probe_all (data : list Z) (v : mview) (ps : list (N * N)) : sx :=
   slist (fun p => sprobe (read data (try_get v (fst p) (snd p)))) ps.
 
+(* the three other access forms, each through its own transcription (Model/MatrixAccess.v) *)
+Definition probe_all_mut (data : list Z) (v : mview) (ps : list (N * N)) : sx :=
+  slist (fun p => sprobe (read data (try_get_mut v (fst p) (snd p)))) ps.
+Definition probe_all_unchecked (data : list Z) (v : mview) (ps : list (N * N)) : sx :=
+  slist (fun p => sprobe (read_unchecked data (get_unchecked v (fst p) (snd p)))) ps.
+Definition probe_all_unchecked_mut (data : list Z) (v : mview) (ps : list (N * N)) : sx :=
+  slist (fun p => sprobe (read_unchecked data (get_unchecked_mut v (fst p) (snd p)))) ps.
+
 Fixpoint do_writes (data : list Z) (v : mview) (ws : list (N * N * Z)) : list bool * list Z :=
   match ws with
   | [] => ([], data)
   | (r, c, x) :: rest =>
-      let '(data', fine) := write data v r c x in
+      let '(data', fine) := write_mut data v r c x in
       let '(os, final) := do_writes data' v rest in (fine :: os, final)
   end.
 
@@ -147,10 +174,12 @@ Definition c12_view (data : list Z) (leaf : outcome mview) (ws : list wrapper)
     let '(os, final) := do_writes data v writes in
     SL [ SL [sN (view_rows v); sN (view_cols v)];
          probe_all data v probes;
-         probe_all data v (grid (view_rows v) (view_cols v));
+         probe_all_unchecked data v (grid (view_rows v) (view_cols v));
          slist sflag os;
          slist SZ final;
-         SL [slayout (data_layout v); slayout (data_layout_through_reference v)] ])
+         SL [slayout (data_layout v); slayout (data_layout_through_reference v)];
+         SL [probe_all_mut data v probes;
+             probe_all_unchecked_mut data v (grid (view_rows v) (view_cols v))] ])
     (obind leaf (fun v => apply_wrappers v ws)).
 
 (* overwrite every cell of part k with 1000 + k *)
@@ -168,6 +197,29 @@ Definition c12_parts (data : list Z) (parts : outcome (list part)) : sx :=
                               probe_all data (VPart p) (grid (p_rows p) (p_cols p)) ]) ps;
          slist SZ (fill_parts data ps 0) ])
     parts.
+
+(* ---- op 7: the same view object over a source that is mutated through source_ref_mut ---- *)
+Definition c12_obs (data : list Z) (v : mview) (probes : list (N * N)) : sx :=
+  SL [ SL [sN (view_rows v); sN (view_cols v)];
+       probe_all data v probes;
+       probe_all_unchecked data v (grid (view_rows v) (view_cols v));
+       SL [probe_all_mut data v probes;
+           probe_all_unchecked_mut data v (grid (view_rows v) (view_cols v))] ].
+
+Definition dmop (s : sx) : option (op Z) :=
+  match s with
+  | SL (SZ t :: _) =>
+      if (t =? 0)%Z || (t =? 2)%Z || (t =? 4)%Z || (t =? 5)%Z || (t =? 9)%Z || (t =? 10)%Z
+      then dop s else None
+  | _ => None
+  end.
+
+Definition c12_source_history (m0 : matrix Z) (revs : list (bool * bool)) (ops : list (op Z))
+           (probes : list (N * N)) : sx :=
+  SL (c12_obs (m_data m0) (rev_stack m0 revs) probes ::
+      map (fun r : matrix Z * bool =>
+             SL [sflag (snd r); c12_obs (m_data (fst r)) (rev_stack (fst r) revs) probes])
+          (impl_trace m0 ops)).
 
 Definition dprobe (s : sx) : option (N * N) := dpair dN dN s.
 Definition dwrite (s : sx) : option (N * N * Z) :=
@@ -221,6 +273,18 @@ Definition run_c12 (args : list sx) : sx :=
           | _ => SL [SZ 3]
           end
       | _, _, _, _ => bad_case
+      end
+  | [SZ 7%Z; rows; cols; data; revs; ops; probes] =>
+      match dN rows, dN cols, dlist dZ data, dlist (dpair dbool dbool) revs, dlist dmop ops,
+            dlist dprobe probes with
+      | Some rows, Some cols, Some data, Some revs, Some ops, Some probes =>
+          if root_ok rows cols data && (1 <=? length revs)%nat && (length revs <=? 3)%nat then
+            match from_flat_row_major (rows, cols) data with
+            | Ok m0 => c12_source_history m0 revs ops probes
+            | _ => bad_case
+            end
+          else bad_case
+      | _, _, _, _, _, _ => bad_case
       end
   | [SZ 6%Z; term; ws; probes; writes] =>
       match RunC02.dview 40 term, dlist dwrapper ws, dlist dprobe probes, dlist dwrite writes with
